@@ -37,6 +37,8 @@ func runC10(p *Program, r *Report) {
 	ruleR109(p, r)
 	r.Rule("R10.10", "E2", 6, "re-wrapping keeps the payload: every EmbedMetadata call of the token stores wraps the data handed to the method or the payload ExtractMetadata returned for the stored record, never the stored record itself")
 	ruleR1010(p, r)
+	r.Rule("R10.11", "E3", 4, "a disabled token is refused by every store: each TokenStorage.Get that reads a record itself tests the record's Disabled flag and every path from the 'disabled' edge returns ErrTokenDisabled; wrappers delegate to the wrapped store")
+	ruleR1011(p, r)
 }
 
 func intWidth(t types.Type) (bits int, signed bool, ok bool) {
@@ -1209,4 +1211,97 @@ func ruleR1010(p *Program, r *Report) {
 func init() {
 	mut("C10", "bolt Get refreshes the access time by wrapping the stored record again", "pseudonymization/storage/boltdb.go", "			return ctxBucket.Put(id, common.EmbedMetadata(data, metadata))", "			_ = data\n			return ctxBucket.Put(id, common.EmbedMetadata(encoded, metadata))", "R10.10", "Get")
 	mut("C10", "bolt maintenance re-wraps the stored record when disabling", "pseudonymization/storage/boltdb.go", "				metadata.Disabled = true\n				value := common.EmbedMetadata(data, metadata)", "				metadata.Disabled = true\n				value := common.EmbedMetadata(v, metadata)", "R10.10", "visitBucket")
+}
+
+// ---- R10.11: a disabled token is not handed out by any store.
+// Every TokenStorage.Get that reads a record itself (not a wrapper delegating to another store) tests the Disabled
+// flag of the record's metadata and leaves with ErrTokenDisabled on that edge; no success return (nil error) is
+// reachable from the 'disabled' edge.
+func ruleR1011(p *Program, r *Report) {
+	iface := p.Type("pseudonymization/common.TokenStorage")
+	errDisabled := p.Lookup("pseudonymization/common.ErrTokenDisabled")
+	if iface == nil || errDisabled == nil {
+		r.Anchor("R10.11", "common.TokenStorage / ErrTokenDisabled")
+		return
+	}
+	it := iface.Type().Underlying().(*types.Interface)
+	n := 0
+	for _, pk := range p.Acra {
+		if strings.Contains(pk.PkgPath, "/mocks") {
+			continue
+		}
+		for _, name := range pk.Types.Scope().Names() {
+			tn, ok := pk.Types.Scope().Lookup(name).(*types.TypeName)
+			if !ok || tn.IsAlias() {
+				continue
+			}
+			if _, isI := tn.Type().Underlying().(*types.Interface); isI {
+				continue
+			}
+			pt := types.NewPointer(tn.Type())
+			if !types.Implements(pt, it) && !types.Implements(tn.Type(), it) {
+				continue
+			}
+			obj, _, _ := types.LookupFieldOrMethod(pt, true, pk.Types, "Get")
+			mf, _ := obj.(*types.Func)
+			if mf == nil {
+				continue
+			}
+			fn := p.Func2(mf)
+			if fn == nil || fn.Blocks == nil {
+				r.Anchor("R10.11", tn.Name()+".Get")
+				continue
+			}
+			// a wrapper: delegates to another TokenStorage.Get
+			delegates := false
+			fns := []*ssa.Function{fn}
+			fns = append(fns, fn.AnonFuncs...)
+			for _, f := range fns {
+				for _, cs := range callsIn(f) {
+					if cs.Instr.Common().IsInvoke() && cs.Instr.Common().Method.Name() == "Get" && types.Implements(cs.Instr.Common().Value.Type(), it) {
+						delegates = true
+					}
+				}
+			}
+			n++
+			if delegates {
+				r.OK("R10.11", fnName(fn), "disabled token is refused", p.Pos(fn.Pos()), "delegates to the wrapped store's Get")
+				continue
+			}
+			// in the method or its closures: an If on a load of field Disabled whose true edge returns ErrTokenDisabled only
+			tests, okAll := 0, true
+			for _, f := range fns {
+				errIdx := f.Signature.Results().Len() - 1
+				if errIdx < 0 || !isErrorType(f.Signature.Results().At(errIdx).Type()) {
+					continue
+				}
+				for _, b := range f.Blocks {
+					iff, ok := b.Instrs[len(b.Instrs)-1].(*ssa.If)
+					if !ok {
+						continue
+					}
+					isDisabled := false
+					if _, fld, ok := fieldOfLoad(iff.Cond); ok && fld == "Disabled" {
+						isDisabled = true
+					}
+					if !isDisabled {
+						continue
+					}
+					tests++
+					if !allReturns(b.Succs[0], nil, func(ret *ssa.Return) bool { return loadsGlobal(retValue(ret, errIdx), errDisabled) }) {
+						okAll = false
+					}
+				}
+			}
+			r.Check(tests > 0 && okAll, "R10.11", fnName(fn), "disabled token is refused", p.Pos(fn.Pos()), fmt.Sprintf("%d test(s) of metadata.Disabled, each leaving with ErrTokenDisabled", tests), "Get does not test the Disabled flag of the record, or its 'disabled' edge can end without ErrTokenDisabled: a token that maintenance disabled is still resolved to the original value")
+		}
+	}
+	if n < 4 {
+		r.Bad("R10.11", "pseudonymization/storage", "TokenStorage.Get implementations", "-", "fewer Get implementations found than the four confirmed by reading (memory, BoltDB, Redis, encrypting wrapper)")
+	}
+}
+
+func init() {
+	mut("C10", "memory store hands out disabled tokens", "pseudonymization/storage/memory.go", "	if value.metadata.Disabled {\n		return nil, common.ErrTokenDisabled\n	}\n", "", "R10.11", "MemoryTokenStorage")
+	mut("C10", "bolt store: disabled token only logged on the write-back", "pseudonymization/storage/boltdb.go", "			if metadata.Disabled {\n				return common.ErrTokenDisabled\n			}\n			metadata.Accessed = now", "			if metadata.Disabled {\n				return nil\n			}\n			metadata.Accessed = now", "R10.11", "boltdbStorage")
 }
